@@ -78,6 +78,9 @@ def gen_run_cfg(r, i):
         cfg.update(like_cut=float(r.choice([0.3, 0.6])), prop_mu=0.0, prop_sigma=2.0, like_center=1.5, like_width=1.0)
     elif m == 2:
         cfg.update(min_step=float(r.choice([0.02, 0.2])))
+    elif m == 3 and (i // 4) % 2 == 1:
+        # an adaptive schedule (the default) asked for together with a number of steps: still adaptive - every step is the ESS-limited one
+        cfg.update(adaptive=True, n_steps=int(r.choice([3, 8, 20])))
     # the populations live in any of the three array namespaces (the step rule reads their log-densities through the namespace's own
     # reductions - torch's `var` is the unbiased one, its `max` returns a pair, ...)
     cfg["ns"] = ("numpy", "torch", "jax", "numpy", "torch")[(i // 4) % 5]
@@ -106,6 +109,20 @@ def check_runs(chk, cfgs, tol=1e-6):
                     chk.count("run-level:resumed_with_other_n_samples")
                 except Exception as e:   # noqa
                     chk.fail("run total", {"level": "run", "cfg": cfg2}, repr(e)[:200], {"level": "run", "clause": "raise"})
+    # a sampler object that first CONTINUED a checkpoint of a run with a step floor and then starts a fresh adaptive run without one:
+    # no floor is in force in that run, every step is the ESS-limited one
+    for j in range(0, len(cfgs), 5):
+        base = {k: v for k, v in cfgs[j].items() if k not in ("min_step", "max_n_steps", "n_steps", "adaptive")}
+        first = dict(base, checkpoint_every=1, **({"max_n_steps": 4} if j % 2 == 0 else {"min_step": 0.25}))
+        r1 = smcrun.run_smc(first, record_checkpoints=True, watchdog_iters=300)
+        if r1["status"] != "done" or len(r1["ckpts"]) < 2:
+            continue
+        r2 = smcrun.resume_smc(first, r1["ckpts"][0]["bytes"], watchdog_iters=300)
+        if r2["status"] != "done":
+            continue
+        fresh = dict(base, seed=int(base["seed"]) + 31)
+        runs.append(({**fresh, "same_object_first_resumed": first}, smcrun.run_smc(fresh, reuse=r2, watchdog_iters=300)))
+        chk.count("run-level:fresh_run_on_an_object_that_resumed")
     for cfg, res in runs:
         chk.count("run-level")
         chk.case(None, json.dumps(cfg))
